@@ -194,6 +194,7 @@ def dense_matrix(ift, op, mode="times"):
 class ExactCG:
     """stands for ConjugateGradient under assumption A-CGEXACT: returns the exact minimiser A^-1 b of the quadratic energy"""
     ift = None
+    simplify = True          # closed forms are simplified entry by entry (cheap for sparse systems; switch off for dense symbolic matrices)
 
     def __init__(self, controller=None, nreset=20):
         pass
@@ -203,6 +204,8 @@ class ExactCG:
         A, b = energy._A, energy._b
         M = dense_matrix(ift, A)
         x = list(M.LUsolve(sp.Matrix(flat(b))))
+        if ExactCG.simplify:
+            x = [sp.simplify(e) for e in x]
         return energy.at(unflatten_like(ift, A.domain, x)), 0
 
 
